@@ -1623,6 +1623,14 @@ func (self *Aof) waitLockAofChannel(_ *AofChannel) {
 	if !atomic.CompareAndSwapUint32(&self.channelActiveCount, 0, 0) {
 		return
 	}
+	for _, channel := range self.channels {
+		channel.queueGlock.Lock()
+		queueCount := channel.queueCount
+		channel.queueGlock.Unlock()
+		if queueCount > 0 {
+			return
+		}
+	}
 
 	self.aofGlock.Lock()
 	if self.aofFile != nil {
